@@ -126,8 +126,9 @@ template<>
 FASTOR_INLINE
 void _dyadic<float,2,2>(const float * FASTOR_RESTRICT a, const float * FASTOR_RESTRICT b, float * FASTOR_RESTRICT out) {
     // 7 OPS
-    __m128 vec_a = _mm_loadu_ps(a);
-    __m128 vec_b = _mm_loadu_ps(b);
+    // a and b have two elements each: load 64 bits, not a full register
+    __m128 vec_a = _mm_castpd_ps(_mm_load_sd(reinterpret_cast<const double*>(a)));
+    __m128 vec_b = _mm_castpd_ps(_mm_load_sd(reinterpret_cast<const double*>(b)));
 
     vec_a = _mm_shuffle_ps(vec_a,vec_a,_MM_SHUFFLE(1,1,0,0));
     vec_b = _mm_shuffle_ps(vec_b,vec_b,_MM_SHUFFLE(1,0,1,0));
@@ -161,8 +162,9 @@ template<>
 FASTOR_INLINE
 void _dyadic<float,3,3>(const float * FASTOR_RESTRICT a, const float * FASTOR_RESTRICT b, float * FASTOR_RESTRICT out) {
     // 18 OPS
-    __m128 vec_a = _mm_loadu_ps(a);
-    __m128 vec_b = _mm_loadu_ps(b);
+    // a and b have three elements each and the last row of out ends at out[8]
+    __m128 vec_a = _mm_loadul3_ps(a);
+    __m128 vec_b = _mm_loadul3_ps(b);
 
     __m128 a0 = _mm_shuffle_ps(vec_a,vec_a,_MM_SHUFFLE(0,0,0,0));
     __m128 a1 = _mm_shuffle_ps(vec_a,vec_a,_MM_SHUFFLE(1,1,1,1));
@@ -170,7 +172,7 @@ void _dyadic<float,3,3>(const float * FASTOR_RESTRICT a, const float * FASTOR_RE
 
     _mm_storeu_ps(out,_mm_mul_ps(a0,vec_b));
     _mm_storeu_ps(out+3,_mm_mul_ps(a1,vec_b));
-    _mm_storeu_ps(out+6,_mm_mul_ps(a2,vec_b));
+    _mm_storeul3_ps(out+6,_mm_mul_ps(a2,vec_b));
 }
 
 
@@ -179,14 +181,15 @@ template<>
 FASTOR_INLINE
 void _dyadic<double,3,3>(const double * FASTOR_RESTRICT a, const double * FASTOR_RESTRICT b, double * FASTOR_RESTRICT out) {
     // 15 OPS + set OPS
-    __m256d vec_b = _mm256_loadu_pd(b);
+    // b has three elements and the last row of out ends at out[8]
+    __m256d vec_b = _mm256_loadul3_pd(b);
     __m256d a0 = _mm256_set1_pd(a[0]);
     __m256d a1 = _mm256_set1_pd(a[1]);
     __m256d a2 = _mm256_set1_pd(a[2]);
 
     _mm256_storeu_pd(out,_mm256_mul_pd(a0,vec_b));
     _mm256_storeu_pd(out+3,_mm256_mul_pd(a1,vec_b));
-    _mm256_storeu_pd(out+6,_mm256_mul_pd(a2,vec_b));
+    _mm256_storeul3_pd(out+6,_mm256_mul_pd(a2,vec_b));
 }
 
 #endif
